@@ -77,7 +77,10 @@ def run_lp(spec, opts, workdir, rng, inject=True, noise=True, second_side=None,
         ex['_t0'] = clock.t
     try:
         try:
-            s = Solver(list(argv))
+            make = Solver
+            if rng.random() < 0.2:
+                make = getattr(solver_mod, 'create', Solver)     # the module's documented creation function
+            s = make(list(argv))
         except SystemExit as e:
             ex['sysexit'] = e.code
             return ex
